@@ -80,6 +80,155 @@ Proof.
     apply ps_tincomp_sym. apply (ps_tincomp_cons f). exact Hi.
 Qed.
 
+(* ---- and backwards: an update on an incomparable path cannot MAKE a path walkable ---- *)
+Lemma ps_nest_set_walk_back l' v lq : forall ks' cur nv ks,
+  ps_nest_set ks' l' v cur = Some nv -> ps_tincomp (ks ++ [lq]) (ks' ++ [l']) ->
+  ps_nest_old ks lq nv <> None -> ps_nest_old ks lq cur <> None.
+Proof.
+  induction ks' as [|k' ks' IH]; intros cur nv ks H Hi Hw; destruct cur; cbn in H; try discriminate.
+  - inversion H; subst. destruct ks as [|k ks]; [cbn; discriminate|]. cbn in Hw |- *.
+    destruct Hi as [_ Hi]. cbn in Hi. rewrite andb_true_r in Hi.
+    rewrite ps_dget_opt_dset_other in Hw; [exact Hw|]. intros ->. rewrite ps_key_eqb_refl in Hi. discriminate.
+  - destruct (ps_nest_set ks' l' v _) as [c'|] eqn:E; [|discriminate]. inversion H; subst.
+    destruct ks as [|k ks]; [cbn; discriminate|]. cbn in Hw |- *.
+    destruct (ps_key_eqb k k') eqn:Eq.
+    + apply ps_key_eqb_eq in Eq. subst k. rewrite ps_dget_opt_dset_same in Hw.
+      apply (IH _ _ _ E); [apply (ps_tincomp_cons k'); exact Hi | exact Hw].
+    + rewrite ps_dget_opt_dset_other in Hw; [exact Hw|]. intros ->. rewrite ps_key_eqb_refl in Eq. discriminate.
+Qed.
+
+Lemma ps_nest_update_walk_back l' F lq :
+  (forall d q, q <> l' -> ps_dget_opt q (F d) = ps_dget_opt q d) ->
+  forall ks' cur nv ks,
+  ps_nest_update ks' F cur = Some nv -> ps_tincomp (ks ++ [lq]) (ks' ++ [l']) ->
+  ps_nest_old ks lq nv <> None -> ps_nest_old ks lq cur <> None.
+Proof.
+  intros HF. induction ks' as [|k' ks' IH]; intros cur nv ks H Hi Hw; destruct cur; cbn in H; try discriminate.
+  - inversion H; subst. destruct ks as [|k ks]; [cbn; discriminate|]. cbn in Hw |- *.
+    destruct Hi as [_ Hi]. cbn in Hi. rewrite andb_true_r in Hi.
+    rewrite HF in Hw; [exact Hw|]. intros ->. rewrite ps_key_eqb_refl in Hi. discriminate.
+  - destruct (ps_dget_opt k' d) as [c|] eqn:Ec; [|discriminate].
+    destruct (ps_nest_update ks' F c) as [c'|] eqn:E; [|discriminate]. inversion H; subst.
+    destruct ks as [|k ks]; [cbn; discriminate|]. cbn in Hw |- *.
+    destruct (ps_key_eqb k k') eqn:Eq.
+    + apply ps_key_eqb_eq in Eq. subst k. rewrite ps_dget_opt_dset_same in Hw. rewrite Ec.
+      apply (IH _ _ _ E); [apply (ps_tincomp_cons k'); exact Hi | exact Hw].
+    + rewrite ps_dget_opt_dset_other in Hw; [exact Hw|]. intros ->. rewrite ps_key_eqb_refl in Eq. discriminate.
+Qed.
+
+Lemma ps_nest_update_walkable ks F lq : forall cur nv, ps_nest_update ks F cur = Some nv -> ps_nest_old ks lq cur <> None.
+Proof.
+  induction ks as [|k ks IH]; intros cur nv H; destruct cur; cbn in H; try discriminate; cbn.
+  destruct (ps_dget_opt k d) as [c|]; [|discriminate]. destruct (ps_nest_update ks F c) as [c'|] eqn:E; [|discriminate].
+  apply (IH _ _ E).
+Qed.
+
+Lemma ps_walkable_same_fields_iff p o o' : ps_m_fields o' = ps_m_fields o -> (ps_walkable_attr p o' <-> ps_walkable_attr p o).
+Proof. intros H. unfold ps_walkable_attr. rewrite H. tauto. Qed.
+
+(* ModifyAttribute on p: paths incomparable with p that are walkable afterwards were walkable before; and whenever it
+   lists p (or succeeds), p was walkable *)
+Theorem ps_modify_walkable_back fe p v now o ok o' :
+  ps_modify_attribute fe p v true now o = (ok, o') ->
+  (forall k, ps_incomp p k -> ps_walkable_attr k o' -> ps_walkable_attr k o) /\
+  (ps_walkable_attr p o \/ (ps_orig_dict o' = ps_orig_dict o /\ ps_m_fields o' = ps_m_fields o)).
+Proof.
+  intros Hmod. unfold ps_modify_attribute in Hmod.
+  assert (forall o1, ps_m_fields o1 = ps_m_fields o -> ps_orig_dict o1 = ps_orig_dict o ->
+          (forall k, ps_incomp p k -> ps_walkable_attr k o1 -> ps_walkable_attr k o) /\
+          (ps_walkable_attr p o \/ (ps_orig_dict o1 = ps_orig_dict o /\ ps_m_fields o1 = ps_m_fields o))) as Hsame.
+  { intros o1 H1 H2. split; [intros k _; apply (proj1 (ps_walkable_same_fields_iff k o o1 H1)) | right; split; assumption]. }
+  destruct (ps_split p) as [|f rest] eqn:Hsp; [inversion Hmod; subst; apply Hsame; reflexivity|].
+  destruct (ps_filookup fe f) as [fi|]; [|inversion Hmod; subst; apply Hsame; reflexivity].
+  destruct (ps_fi_nomod fi); [inversion Hmod; subst; apply Hsame; reflexivity|].
+  remember (if ps_fi_config fi then match ps_m_orig o with
+            | None => {| ps_m_fields := ps_m_fields o; ps_m_orig := Some []; ps_m_version := ps_m_version o |}
+            | Some _ => o end else o) as o1 eqn:Hdef.
+  assert (ps_m_fields o1 = ps_m_fields o) as Hf1 by (rewrite Hdef; destruct (ps_fi_config fi); [destruct (ps_m_orig o)|]; reflexivity).
+  assert (ps_orig_dict o1 = ps_orig_dict o) as Ho1
+    by (rewrite Hdef; unfold ps_orig_dict; destruct (ps_fi_config fi); [destruct (ps_m_orig o) eqn:E; cbn; rewrite ?E|]; reflexivity).
+  clear Hdef.
+  assert (forall k g rk restk nv, ps_split k = g :: rk :: restk -> ps_key_eqb g f = false ->
+          ps_nest_old (removelast (rk :: restk)) (last (rk :: restk) []) (ps_start (ps_dget g (ps_dset f nv (ps_m_fields o1)))) <> None ->
+          ps_walkable_attr k o) as Hother.
+  { intros k g rk restk nv Hk E Hw. unfold ps_walkable_attr. rewrite Hk, <- Hf1.
+    rewrite ps_dget_dset_other in Hw; [exact Hw|]. intros ->. rewrite ps_key_eqb_refl in E. discriminate. }
+  destruct rest as [|r rest'].
+  - cbn in Hmod. split; [|left; unfold ps_walkable_attr; rewrite Hsp; exact I].
+    intros k Hi Hw. destruct (ps_field_accepts fi v); inversion Hmod; subst ok o'; clear Hmod;
+      [|apply (proj1 (ps_walkable_same_fields_iff k o o1 Hf1)); exact Hw].
+    unfold ps_incomp in Hi. rewrite Hsp in Hi. unfold ps_walkable_attr in Hw. cbn [ps_m_fields] in Hw.
+    destruct (ps_split k) as [|g [|rk restk]] eqn:Hk; try (unfold ps_walkable_attr; rewrite Hk; exact I).
+    destruct (ps_key_eqb g f) eqn:E; [|apply (Hother k g rk restk _ Hk E Hw)].
+    apply ps_key_eqb_eq in E. subst g. exfalso. destruct Hi as [Hi _]. cbn in Hi. rewrite ps_key_eqb_refl in Hi. discriminate.
+  - set (rest := r :: rest') in *.
+    set (ks := removelast rest) in *. set (l := last rest []) in *.
+    assert (rest = ks ++ [l]) as Hrest by (apply app_removelast_last; discriminate).
+    cbv zeta in Hmod. fold (ps_start (ps_dget f (ps_m_fields o1))) in Hmod.
+    destruct (ps_nest_old ks l (ps_start (ps_dget f (ps_m_fields o1)))) as [ov|] eqn:Hold; [|inversion Hmod; subst; apply Hsame; assumption].
+    destruct (ps_nest_set ks l v (ps_start (ps_dget f (ps_m_fields o1)))) as [nv|] eqn:Hset; [|inversion Hmod; subst; apply Hsame; assumption].
+    destruct (ps_nest_set_is_dict _ _ _ _ _ Hset) as (nd & ->).
+    assert (ps_field_accepts fi (PsDict nd) = true) as Hacc by (unfold ps_field_accepts; cbn; rewrite orb_true_r; reflexivity).
+    rewrite Hacc in Hmod. inversion Hmod; subst ok o'; clear Hmod. split.
+    + intros k Hi Hw. unfold ps_incomp in Hi. rewrite Hsp in Hi. unfold ps_walkable_attr in Hw. cbn [ps_m_fields ps_coerce] in Hw.
+      destruct (ps_split k) as [|g [|rk restk]] eqn:Hk; try (unfold ps_walkable_attr; rewrite Hk; exact I).
+      destruct (ps_key_eqb g f) eqn:E; [|apply (Hother k g rk restk _ Hk E Hw)].
+      apply ps_key_eqb_eq in E. subst g. rewrite ps_dget_dset_same in Hw. unfold ps_start at 1 in Hw. cbn [ps_is_empty] in Hw.
+      unfold ps_walkable_attr. rewrite Hk, <- Hf1.
+      apply (ps_nest_set_walk_back l v _ ks _ (PsDict nd) _ Hset); [|exact Hw].
+      rewrite <- Hrest. rewrite <- app_removelast_last by discriminate.
+      apply ps_tincomp_sym. apply (ps_tincomp_cons f). exact Hi.
+    + left. unfold ps_walkable_attr. rewrite Hsp, <- Hf1.
+      change (ps_nest_old ks l (ps_start (ps_dget f (ps_m_fields o1))) <> None). rewrite Hold. discriminate.
+Qed.
+
+Theorem ps_restore_walkable_back fe p now o ok o' x :
+  ps_restore_attribute fe p true now o = (ok, o') -> ps_own_only p x (ps_orig_dict o) ->
+  (forall k, ps_incomp p k -> ps_walkable_attr k o' -> ps_walkable_attr k o) /\
+  (ps_walkable_attr p o' -> ps_walkable_attr p o).
+Proof.
+  intros Hres Hown. unfold ps_restore_attribute in Hres.
+  destruct (ps_split p) as [|f rest] eqn:Hsp; [inversion Hres; subst; tauto|].
+  destruct (ps_filookup fe f) as [fi|]; [|inversion Hres; subst; tauto].
+  destruct (ps_m_orig o) as [og|] eqn:Horig; [|inversion Hres; subst; tauto].
+  assert (ps_orig_dict o = og) as Hog by (unfold ps_orig_dict; rewrite Horig; reflexivity). rewrite Hog in Hown.
+  assert (forall k g rk restk nv, ps_split k = g :: rk :: restk -> ps_key_eqb g f = false ->
+          ps_nest_old (removelast (rk :: restk)) (last (rk :: restk) []) (ps_start (ps_dget g (ps_dset f nv (ps_m_fields o)))) <> None ->
+          ps_walkable_attr k o) as Hother.
+  { intros k g rk restk nv Hk E Hw. unfold ps_walkable_attr. rewrite Hk.
+    rewrite ps_dget_dset_other in Hw; [exact Hw|]. intros ->. rewrite ps_key_eqb_refl in E. discriminate. }
+  destruct rest as [|r rest'].
+  - split; [|intros _; unfold ps_walkable_attr; rewrite Hsp; exact I].
+    intros k Hi Hw. destruct (negb _); inversion Hres; subst ok o'; [exact Hw|].
+    unfold ps_incomp in Hi. rewrite Hsp in Hi. unfold ps_walkable_attr in Hw. cbn [ps_m_fields] in Hw.
+    destruct (ps_split k) as [|g [|rk restk]] eqn:Hk; try (unfold ps_walkable_attr; rewrite Hk; exact I).
+    destruct (ps_key_eqb g f) eqn:E; [|apply (Hother k g rk restk _ Hk E Hw)].
+    apply ps_key_eqb_eq in E. subst g. exfalso. destruct Hi as [Hi _]. cbn in Hi. rewrite ps_key_eqb_refl in Hi. discriminate.
+  - set (rest := r :: rest') in *.
+    set (ks := removelast rest) in *. set (l := last rest []) in *.
+    assert (rest = ks ++ [l]) as Hrest by (apply app_removelast_last; discriminate).
+    set (cur := ps_dget f (ps_m_fields o)) in *.
+    destruct (ps_is_empty cur) eqn:Eempty; [inversion Hres; subst; tauto|].
+    set (F := fun cd => fold_left (ps_restore_entry (f :: rest) l) og cd) in *.
+    destruct (ps_nest_update ks F cur) as [nv|] eqn:Hu; [|inversion Hres; subst; tauto].
+    destruct (ps_nest_update_is_dict _ _ _ _ Hu) as (nd & ->).
+    inversion Hres; subst ok o'; clear Hres.
+    assert (ps_start cur = cur) as Hstart by (unfold ps_start; rewrite Eempty; reflexivity).
+    split.
+    + intros k Hi Hw. unfold ps_incomp in Hi. rewrite Hsp in Hi. unfold ps_walkable_attr in Hw. cbn [ps_m_fields ps_coerce] in Hw.
+      destruct (ps_split k) as [|g [|rk restk]] eqn:Hk; try (unfold ps_walkable_attr; rewrite Hk; exact I).
+      destruct (ps_key_eqb g f) eqn:E; [|apply (Hother k g rk restk _ Hk E Hw)].
+      apply ps_key_eqb_eq in E. subst g. rewrite ps_dget_dset_same in Hw. unfold ps_start at 1 in Hw. cbn [ps_is_empty] in Hw.
+      unfold ps_walkable_attr. rewrite Hk. fold cur. rewrite Hstart.
+      apply (ps_nest_update_walk_back l F) with (ks' := ks) (nv := PsDict nd); [|exact Hu | | exact Hw].
+      * intros d q Hq. unfold F. rewrite <- Hsp. apply (ps_loop_other_opt p l x); assumption.
+      * rewrite <- Hrest. rewrite <- app_removelast_last by discriminate.
+        apply ps_tincomp_sym. apply (ps_tincomp_cons f). exact Hi.
+    + intros _. unfold ps_walkable_attr. rewrite Hsp.
+      change (ps_nest_old ks l (ps_start cur) <> None). rewrite Hstart.
+      apply (ps_nest_update_walkable ks F l cur _ Hu).
+Qed.
+
 Definition ps_top_level (p : ps_key) : bool := match ps_split p with [_] => true | _ => false end.
 
 (* a successful ModifyAttribute lists the path and installs the value *)
@@ -213,25 +362,46 @@ Section Reload.
   Definition ps_reload_inv (o : ps_mobj) : Prop :=
     ps_spine_inv P o0 o /\
     (forall k x, In (k, x) (ps_orig_dict o) -> ps_is_dict x = false) /\
-    NoDup (map fst (ps_orig_dict o)).
+    NoDup (map fst (ps_orig_dict o)) /\
+    (* every listed path was walkable in the configuration, and what is walkable now was walkable in the configuration *)
+    (forall k x, In (k, x) (ps_orig_dict o) -> ps_walkable_attr k o0) /\
+    (forall p, In p P -> ps_walkable_attr p o -> ps_walkable_attr p o0).
 
   Lemma ps_reload_step o op :
     ps_reload_inv o -> In (ps_op_path op) P ->
     (match op with PsOpMod p _ _ => ps_is_dict (ps_get_attr p o) = false | PsOpRes _ _ => True end) ->
     ps_reload_inv (snd (ps_apply fe o op)).
   Proof.
-    intros (Hsp & Hd & Hnd) Hp Hc. split; [apply (ps_spine_step fe P o0 HPinc HPcfg HPtyp); assumption|].
+    intros (Hsp & Hd & Hnd & Hw1 & Hw2) Hp Hc. split; [apply (ps_spine_step fe P o0 HPinc HPcfg HPtyp); assumption|].
+    pose proof Hsp as ((I1 & _ & _) & _).
     destruct op as [p v t | p t]; cbn in Hp |- *.
     - destruct (ps_modify_attribute fe p v true t o) as [ok o'] eqn:Hm. cbn.
       destruct (ps_modify_spec fe p v t o ok o' Hm (HPcfg p Hp) Hc) as (_ & HC & _).
-      destruct HC as [HC|[HC1 HC2]]; [rewrite HC; split; assumption|]. rewrite HC2. split.
+      destruct (ps_modify_walkable_back fe p v t o ok o' Hm) as (HB1 & HB2).
+      assert (forall q, In q P -> ps_walkable_attr q o' -> ps_walkable_attr q o0) as Hw2'.
+      { intros q Hq Hw. apply (Hw2 q Hq). destruct (ps_key_dec q p) as [->|Hne].
+        - destruct HB2 as [HB2|[_ HB2]]; [exact HB2 | apply (proj1 (ps_walkable_same_fields_iff p o o' HB2)); exact Hw].
+        - apply (HB1 q); [apply HPinc; [exact Hp | exact Hq | intros E; apply Hne; symmetry; exact E] | exact Hw]. }
+      destruct HC as [HC|[HC1 HC2]]; [rewrite HC; repeat split; assumption|]. rewrite HC2. split; [|split; [|split]].
       + intros k x Hin. apply ps_in_dset in Hin. destruct Hin as [Hin|Hin]; [inversion Hin; subst; exact Hc | exact (Hd k x Hin)].
       + apply ps_nodup_dset; [apply ps_dcontains_false_keys; exact HC1 | exact Hnd].
-    - split; [|apply ps_restore_nodup; exact Hnd].
-      destruct (ps_restore_attribute fe p true t o) as [ok o'] eqn:Hr. cbn.
-      destruct Hsp as [Hseq _].
-      destruct (ps_restore_spec fe p t o ok o' (ps_get_attr p o0) Hr (ps_seq_own_only P o0 HPinc o p Hseq Hp) (HPtyp p Hp)) as (_ & HC & _).
-      intros k x Hin. apply HC in Hin. exact (Hd k x (proj1 Hin)).
+      + intros k x Hin. apply ps_in_dset in Hin. destruct Hin as [Hin|Hin]; [|exact (Hw1 k x Hin)].
+        inversion Hin; subst k x. apply (Hw2 p Hp).
+        destruct HB2 as [HB2|[HB2 _]]; [exact HB2|]. exfalso.
+        (* original_attributes did change: p is listed now and was not before *)
+        rewrite HC2 in HB2. pose proof (ps_dcontains_dset p (ps_get_attr p o) (ps_orig_dict o)) as Hc'. rewrite HB2, HC1 in Hc'. discriminate.
+      + exact Hw2'.
+    - destruct (ps_restore_attribute fe p true t o) as [ok o'] eqn:Hr.
+      pose proof (ps_restore_nodup fe p t o Hnd) as Hnd'. rewrite Hr in Hnd'. cbn in Hnd' |- *.
+      destruct Hsp as [Hseq Hspine].
+      pose proof (ps_seq_own_only P o0 HPinc o p Hseq Hp) as Hown.
+      destruct (ps_restore_spec fe p t o ok o' (ps_get_attr p o0) Hr Hown (HPtyp p Hp)) as (_ & HC & _).
+      destruct (ps_restore_walkable_back fe p t o ok o' _ Hr Hown) as (HB1 & HB2).
+      split; [|split; [exact Hnd'|split]].
+      + intros k x Hin. apply HC in Hin. exact (Hd k x (proj1 Hin)).
+      + intros k x Hin. apply HC in Hin. exact (Hw1 k x (proj1 Hin)).
+      + intros q Hq Hw. apply (Hw2 q Hq). destruct (ps_key_dec q p) as [->|Hne]; [exact (HB2 Hw)|].
+        apply (HB1 q); [apply HPinc; [exact Hp | exact Hq | intros E; apply Hne; symmetry; exact E] | exact Hw].
   Qed.
 
   Lemma ps_reload_run h : forall o, ps_reload_inv o -> ps_hist_ok fe P o h -> ps_reload_inv (ps_run fe o h).
@@ -242,7 +412,8 @@ Section Reload.
 
   Lemma ps_reload_inv_init : ps_orig_dict o0 = [] -> ps_reload_inv o0.
   Proof.
-    intros H0. split; [split; [apply ps_seq_inv_init; exact H0|]|split]; rewrite H0; try (intros k x []). constructor.
+    intros H0. split; [split; [apply ps_seq_inv_init; exact H0|]|split; [|split; [|split]]]; rewrite ?H0; try (intros k x []); [constructor|].
+    intros p _ Hw. exact Hw.
   Qed.
 
   (* ---- the running object and what has to hold of the values it lists ---- *)
@@ -252,7 +423,6 @@ Section Reload.
 
   Definition ps_listed_ok (k : ps_key) : Prop :=
     ps_writer_codec (ps_get_attr k cur) = ps_get_attr k cur /\            (* survives the writer: <= 6 fractional digits *)
-    ps_walkable_attr k o0 /\                                              (* no scalar on the way to k in the configuration *)
     (ps_top_level k = true -> forall fi, ps_filookup fe (ps_field_of k) = Some fi ->
        ps_field_accepts fi (ps_get_attr k cur) = true /\ ps_coerce fi (ps_get_attr k cur) = ps_get_attr k cur).
   Hypothesis Hvals : forall k x, In (k, x) (ps_orig_dict cur) -> ps_listed_ok k.
@@ -288,7 +458,7 @@ Section Reload.
       destruct (Hlisted k (or_introl eq_refl)) as (x & Hkx).
       destruct Hcur as ((Hcseq & _) & Hcd & _). destruct Hcseq as (Ic1 & _ & _).
       destruct (Ic1 k x Hkx) as [HkP Hx].
-      destruct (Hvals k x Hkx) as (Hcodec & Hw0 & Htop).
+      destruct (Hvals k x Hkx) as (Hcodec & Htop).
       pose proof (Hnot k (or_introl eq_refl)) as Hkd.
       (* the value at k is still the configured one, hence no dictionary *)
       pose proof Hrl as ((Hrseq & _) & _ & _). pose proof Hrseq as (_ & Ir2 & _).
@@ -352,7 +522,7 @@ Section Reload.
       (ps_orig_dict cur = [] -> script = [] /\ r = o0).
   Proof.
     intros H0. set (keys := map fst (ps_orig_dict cur)).
-    pose proof Hcur as ((Hcseq & Hcsp) & Hcd & Hcnd). pose proof Hcseq as (Ic1 & Ic2 & Ic3).
+    pose proof Hcur as ((Hcseq & Hcsp) & Hcd & Hcnd & Hcw & _). pose proof Hcseq as (Ic1 & Ic2 & Ic3).
     assert (forall k, In k keys -> exists x, In (k, x) (ps_orig_dict cur)) as Hkeys.
     { intros k Hin. apply in_map_iff in Hin. destruct Hin as ([k' x] & <- & Hin). exists x. exact Hin. }
     exists (map (fun k => (k, ps_get_attr k cur)) keys).
@@ -360,7 +530,7 @@ Section Reload.
     { unfold ps_dump_modattrs. fold keys. apply ps_dump_keys_spine. intros k Hin. destruct (Hkeys k Hin) as (x & Hx). exact (Hcsp k x Hx). }
     assert (ps_rep_inv [] o0) as Hinv0.
     { split; [apply ps_reload_inv_init; exact H0|]. split; [intros k []|]. split; [rewrite H0; intros k x []|].
-      split; [|intros H; contradiction]. intros k x Hin _. exact (proj1 (proj2 (Hvals k x Hin))). }
+      split; [|intros H; contradiction]. intros k x Hin _. exact (Hcw k x Hin). }
     destruct (ps_replay_run keys [] o0 Hinv0 Hcnd (fun k _ H => H) Hkeys) as [Hok Hfin]. cbn [app] in Hfin.
     set (r1 := ps_run fe o0 (ps_rep_hist keys)) in *.
     pose proof (ps_replay_as_run keys o0 Hok) as Hrep.
